@@ -14,38 +14,37 @@ theorem foldl_pres {β : Type} (P : State → Prop) (f : State → β → State)
   | nil => intro s hs; exact hs
   | cons x t ih => intro s hs; exact ih _ (h _ _ hs)
 
+theorem foldl_frame {β γ : Type} (π : State → γ) (f : State → β → State)
+    (h : ∀ s x, π (f s x) = π s) (l : List β) (s : State) : π (l.foldl f s) = π s :=
+  foldl_pres (fun t => π t = π s) f (fun t x ht => by rw [h]; exact ht) l s rfl
+
 /-- the part of the state other connections can see -/
 def shared (s : State) : Map Rec × Tid × List (Tid × List Oid) := (s.committed, s.lastTid, s.log)
 
-section frame
-variable (c : Map Rec × Tid × List (Tid × List Oid))
+@[simp] theorem access_shared (s : State) (i) : shared (access s i).1 = shared s := by
+  unfold access
+  simp only
+  repeat' split
+  all_goals rfl
 
-theorem access_shared {s s' : State} {i} (h : access s i = .ok s') : shared s' = shared s := by
-  unfold access at h
-  simp only at h
-  repeat' split at h
-  all_goals first | (injection h with h; subst h; rfl) | (simp at h) | skip
-  all_goals cases h
-
-theorem join_shared (s : State) : shared (join s) = shared s := by
+@[simp] theorem join_shared (s : State) : shared (join s) = shared s := by
   unfold join; split <;> rfl
 
-theorem markChanged_shared (s : State) (i) : shared (markChanged s i) = shared s := by
+@[simp] theorem markChanged_shared (s : State) (i) : shared (markChanged s i) = shared s := by
   unfold markChanged
   simp only
   repeat' split
-  all_goals first | rfl | (simp [shared, setO, join]; try split <;> rfl)
+  all_goals first | rfl | (simp only [shared, setO]; exact join_shared s)
 
-theorem disown_shared (s : State) (i) : shared (disown s i) = shared s := rfl
+@[simp] theorem disown_shared (s : State) (i) : shared (disown s i) = shared s := rfl
 
-theorem invalidate_shared (s : State) (k) : shared (invalidate s k) = shared s := by
+@[simp] theorem invalidate_shared (s : State) (k) : shared (invalidate s k) = shared s := by
   unfold invalidate; split <;> rfl
 
-theorem invalidateAll_shared (s : State) (ks) : shared (invalidateAll s ks) = shared s :=
-  foldl_pres (fun t => shared t = shared s) invalidate
-    (fun t k h => by rw [invalidate_shared]; exact h) ks s rfl
+@[simp] theorem invalidateAll_shared (s : State) (ks) : shared (invalidateAll s ks) = shared s :=
+  foldl_frame shared invalidate invalidate_shared ks s
 
-theorem abortOne_shared (s : State) (i) : shared (abortOne s i) = shared s := by
+@[simp] theorem abortOne_shared (s : State) (i) : shared (abortOne s i) = shared s := by
   unfold abortOne
   split
   · rfl
@@ -53,35 +52,33 @@ theorem abortOne_shared (s : State) (i) : shared (abortOne s i) = shared s := by
     · rfl
     · exact invalidate_shared _ _
 
-theorem abortObjs_shared (s : State) : shared (abortObjs s) = shared s :=
-  foldl_pres (fun t => shared t = shared s) abortOne
-    (fun t k h => by rw [abortOne_shared]; exact h) _ s rfl
+@[simp] theorem abortObjs_shared (s : State) : shared (abortObjs s) = shared s :=
+  foldl_frame shared abortOne abortOne_shared _ s
 
-theorem uncreate_shared (s : State) (k) : shared (uncreate s k) = shared s := by
+@[simp] theorem uncreate_shared (s : State) (k) : shared (uncreate s k) = shared s := by
   unfold uncreate; split <;> rfl
 
-theorem invalidateCreating_shared (s : State) (ks) : shared (invalidateCreating s ks) = shared s :=
-  foldl_pres (fun t => shared t = shared s) uncreate
-    (fun t k h => by rw [uncreate_shared]; exact h) ks s rfl
+@[simp] theorem invalidateCreating_shared (s : State) (ks) : shared (invalidateCreating s ks) = shared s :=
+  foldl_frame shared uncreate uncreate_shared ks s
 
-theorem abortSavepoint_shared (s : State) : shared (abortSavepoint s) = shared s := by
+@[simp] theorem abortSavepoint_shared (s : State) : shared (abortSavepoint s) = shared s := by
   unfold abortSavepoint
   split
   · rfl
   · simp only [invalidateAll_shared]
     exact invalidateCreating_shared _ _
 
-theorem connAbort_shared (s : State) : shared (connAbort s) = shared s := by
+@[simp] theorem connAbort_shared (s : State) : shared (connAbort s) = shared s := by
   unfold connAbort tpcCleanup
   show shared (invalidateCreating _ _) = _
   rw [invalidateCreating_shared, abortSavepoint_shared, abortObjs_shared]
 
-theorem drainAdded_shared (s : State) : shared (drainAdded s) = shared s := by
+@[simp] theorem drainAdded_shared (s : State) : shared (drainAdded s) = shared s := by
   unfold drainAdded
   show shared (List.foldl _ s s.added) = _
-  exact foldl_pres (fun t => shared t = shared s) _ (fun t k h => h) _ s rfl
+  exact foldl_frame shared _ (fun t k => rfl) _ s
 
-theorem connTpcAbort_shared (s : State) : shared (connTpcAbort s) = shared s := by
+@[simp] theorem connTpcAbort_shared (s : State) : shared (connTpcAbort s) = shared s := by
   unfold connTpcAbort tpcCleanup
   split
   · rfl
@@ -92,40 +89,39 @@ theorem connTpcAbort_shared (s : State) : shared (connTpcAbort s) = shared s := 
     show shared (abortSavepoint s) = _
     exact abortSavepoint_shared s
 
-theorem pollOne_shared (s : State) (p) : shared (pollOne s p) = shared s := by
+@[simp] theorem pollOne_shared (s : State) (p) : shared (pollOne s p) = shared s := by
   unfold pollOne
   simp only
   split
   · split <;> rfl
   · rfl
 
-theorem poll_shared (s : State) : shared (poll s) = shared s := by
+@[simp] theorem poll_shared (s : State) : shared (poll s) = shared s := by
   unfold poll
-  exact foldl_pres (fun t => shared t = shared s) pollOne
-    (fun t k h => by rw [pollOne_shared]; exact h) _ _ rfl
+  exact foldl_frame shared pollOne pollOne_shared _ _
 
-theorem afterCompletion_shared (s : State) : shared (afterCompletion s) = shared s := by
+@[simp] theorem afterCompletion_shared (s : State) : shared (afterCompletion s) = shared s := by
   unfold afterCompletion
   simp only
   split
   · rw [poll_shared]; rfl
   · rfl
 
-theorem cleanup_shared (v : Bool) (s : State) : shared (cleanup v s) = shared s := by
+@[simp] theorem cleanup_shared (v : Bool) (s : State) : shared (cleanup v s) = shared s := by
   unfold cleanup
   rw [connTpcAbort_shared]
   split
   · rfl
   · exact connAbort_shared s
 
-theorem persistentId_shared (acc : State × List ObjId) (r) :
+@[simp] theorem persistentId_shared (acc : State × List ObjId) (r) :
     shared (persistentId acc r).1 = shared acc.1 := by
   obtain ⟨s, pushed⟩ := acc
   unfold persistentId
   simp only
   split <;> rfl
 
-theorem serialize_shared (s : State) (refs) : shared (serialize s refs).1 = shared s := by
+@[simp] theorem serialize_shared (s : State) (refs) : shared (serialize s refs).1 = shared s := by
   unfold serialize
   suffices h : ∀ (l : List ObjId) (acc : State × List ObjId),
       shared (l.foldl persistentId acc).1 = shared acc.1 from h refs (s, [])
@@ -134,38 +130,246 @@ theorem serialize_shared (s : State) (refs) : shared (serialize s refs).1 = shar
   | nil => intro acc; rfl
   | cons x t ih => intro acc; simp only [List.foldl_cons]; rw [ih, persistentId_shared]
 
-theorem storageStore_shared {s s' : State} {k r} (h : storageStore s k r = .ok s') :
-    shared s' = shared s := by
-  unfold storageStore at h
-  simp only at h
-  repeat' split at h
-  all_goals first | (injection h with h; subst h; rfl) | cases h
-
-theorem storeOne_shared (s : State) (i) : shared (storeOne s i).2.1 = shared s := by
-  unfold storeOne
+@[simp] theorem storageStore_shared (s : State) (k r) : shared (storageStore s k r).1 = shared s := by
+  unfold storageStore
   simp only
+  repeat' split
+  all_goals rfl
+
+@[simp] theorem classify_shared (s : State) (i k) : shared (classify s i k) = shared s := by
+  unfold classify; split <;> rfl
+
+@[simp] theorem storeRec_shared (s : State) (i k r) : shared (storeRec s i k r).1 = shared s := by
+  unfold storeRec
   split
   · rfl
   · split
-    · split <;> rfl
-    · rename_i s1 hacc
-      have h1 := access_shared hacc
-      split
-      · simp only [shared, setO] at *
-        rw [← h1]
-        have := serialize_shared s1 (s1.objs i).refs
-        simp only [shared] at this
-        split at h1 <;> simp_all
-      · split
-        · have := serialize_shared s1 (s1.objs i).refs
-          simp only [shared] at this h1 ⊢
-          split at h1 <;> simp_all
-        · rename_i s2 hst
-          have h2 := storageStore_shared hst
-          have := serialize_shared s1 (s1.objs i).refs
-          simp only [shared] at this h1 h2 ⊢
-          split at h1 <;> simp_all
+    · rename_i h; have := storageStore_shared s k r; rw [h] at this; exact this
+    · rename_i h; have := storageStore_shared s k r; rw [h] at this; exact this
 
-end frame
+@[simp] theorem storeOne_shared (s : State) (i) : shared (storeOne s i).1.1 = shared s := by
+  unfold storeOne
+  split
+  · rfl
+  · split
+    · rename_i h
+      have := access_shared (classify s i _) i
+      rw [h] at this; simpa using this
+    · rename_i h
+      have := access_shared (classify s i _) i
+      rw [h] at this
+      simp only [storeRec_shared, serialize_shared]
+      simpa using this
+
+@[simp] theorem storeObjects_shared (fuel : Nat) (s : State) (st) :
+    shared (storeObjects fuel s st).1 = shared s := by
+  induction fuel generalizing s st with
+  | zero => cases st <;> rfl
+  | succ n ih =>
+    cases st with
+    | nil => rfl
+    | cons i rest =>
+      simp only [storeObjects]
+      split
+      · rename_i h
+        rw [ih]
+        have := storeOne_shared s i; rw [h] at this; exact this
+      · rename_i h
+        have := storeOne_shared s i; rw [h] at this; exact this
+
+@[simp] theorem commitLoop_shared (fuel : Nat) (s : State) (l) :
+    shared (commitLoop fuel s l).1 = shared s := by
+  induction l generalizing s with
+  | nil => rfl
+  | cons i rest ih =>
+    simp only [commitLoop]
+    split
+    · rfl
+    · split
+      · split
+        · rename_i h
+          rw [ih]
+          have := storeObjects_shared fuel s [i]; rw [h] at this; exact this
+        · rename_i h
+          have := storeObjects_shared fuel s [i]; rw [h] at this; exact this
+      · exact ih s
+
+@[simp] theorem connCommitPlain_shared (b : Nat) (s : State) :
+    shared (connCommitPlain b s).1 = shared s := commitLoop_shared _ _ _
+
+@[simp] theorem connSavepoint_shared (b : Nat) (s : State) :
+    shared (connSavepoint b s).1 = shared s := by
+  unfold connSavepoint
+  simp only
+  split
+  · rename_i h
+    have := connCommitPlain_shared b (match s.sp with
+      | none => { s with sp := some {}, creating := [] }
+      | some _ => { s with creating := [] })
+    cases hsp : s.sp <;> simp only [hsp] at h this <;> rw [h] at this <;> exact this
+  · rename_i h
+    have := connCommitPlain_shared b (match s.sp with
+      | none => { s with sp := some {}, creating := [] }
+      | some _ => { s with creating := [] })
+    cases hsp : s.sp <;> simp only [hsp] at h this <;> rw [h] at this <;>
+      (simp only [shared] at this ⊢; split <;> exact this)
+
+@[simp] theorem replay_shared (src : TmpStore) (s : State) (l) :
+    shared (replay src s l).1 = shared s := by
+  induction l generalizing s with
+  | nil => rfl
+  | cons k rest ih =>
+    simp only [replay]
+    repeat' split
+    all_goals first | rfl | skip
+    · rename_i h; have := storageStore_shared s k _; rw [h] at this; exact this
+    · rename_i h; rw [ih]; have := storageStore_shared s k _; rw [h] at this; exact this
+
+@[simp] theorem commitSavepoint_shared (s : State) : shared (commitSavepoint s).1 = shared s := by
+  unfold commitSavepoint
+  split
+  · rfl
+  · simp only [replay_shared]; rfl
+
+@[simp] theorem connCommit_shared (b : Nat) (s : State) : shared (connCommit b s).1 = shared s := by
+  unfold connCommit
+  split
+  · split
+    · rename_i h; have := connSavepoint_shared b s; rw [h] at this; exact this
+    · rename_i h; rw [commitSavepoint_shared]; have := connSavepoint_shared b s; rw [h] at this; exact this
+  · exact connCommitPlain_shared b s
+
+@[simp] theorem rollbackSavepoint_shared (s : State) (p idx cr) :
+    shared (rollbackSavepoint s p idx cr) = shared s := by
+  unfold rollbackSavepoint
+  simp only
+  split
+  · exact abortObjs_shared s
+  · simp only [invalidateAll_shared]
+    show shared (invalidateCreating _ _) = _
+    rw [invalidateCreating_shared]
+    exact abortObjs_shared s
+
+theorem txnRollback_shared (s : State) (n) : shared (txnRollback s n).1 = shared s := by
+  unfold txnRollback
+  repeat' split
+  all_goals first | rfl | simp [shared] | skip
+  · exact rollbackSavepoint_shared _ _ _ _
+  · exact connAbort_shared _
+
+theorem txnSavepoint_shared (b : Nat) (s : State) : shared (txnSavepoint b s).1 = shared s := by
+  unfold txnSavepoint
+  split
+  · rfl
+  · split
+    · rename_i h; rw [cleanup_shared]; have := connSavepoint_shared b s; rw [h] at this; exact this
+    · rename_i h; have := connSavepoint_shared b s; rw [h] at this; exact this
+
+theorem txnAbort_shared (s : State) : shared (txnAbort s) = shared s := by
+  unfold txnAbort
+  simp only [afterCompletion_shared]
+  split
+  · rfl
+  · exact connAbort_shared s
+
+theorem txnAbortAfterFailure_shared (j : Bool) (s : State) :
+    shared (txnAbortAfterFailure j s) = shared s := by
+  unfold txnAbortAfterFailure
+  simp only [afterCompletion_shared]
+  split
+  · exact connAbort_shared s
+  · rfl
+
+theorem mutate_shared (s : State) (i f) : shared (mutate s i f).1 = shared s := by
+  unfold mutate
+  split
+  · rfl
+  · split
+    · rename_i h; have := access_shared s i; rw [h] at this; exact this
+    · rename_i h; have := access_shared s i; rw [h] at this
+      split
+      · exact this
+      · simp only [markChanged_shared]; exact this
+
+theorem opAdd_shared (s : State) (i) : shared (opAdd s i).1 = shared s := by
+  unfold opAdd
+  simp only
+  repeat' split
+  all_goals first | rfl | skip
+  simp only [shared, setO]
+  exact join_shared _
+
+theorem opClose_shared (s : State) : shared (opClose s).1 = shared s := by
+  unfold opClose; split <;> rfl
+
+theorem opOpen_shared (s : State) : shared (opOpen s).1 = shared s := by
+  unfold opOpen; split
+  · rfl
+  · simp only [poll_shared]; rfl
+
+/-- a commit that does not report success leaves the shared storage alone -/
+theorem commitJoined_shared (b : Nat) (s : State) :
+    (∃ tid oids, (commitJoined b s).2 = .committed tid oids) ∨
+    shared (commitJoined b s).1 = shared s := by
+  unfold commitJoined
+  split
+  · right; simp
+  · split
+    · right; simp; rfl
+    · split
+      · right; rename_i h
+        simp only [cleanup_shared]
+        have := connCommit_shared b (connTpcBegin s); rw [h] at this; exact this
+      · rename_i h
+        have hc := connCommit_shared b (connTpcBegin s); rw [h] at hc
+        split
+        · right; simp only [cleanup_shared]; exact hc
+        · split
+          · right; simp only [cleanup_shared]; exact hc
+          · left; exact ⟨_, _, rfl⟩
+
+theorem txnCommit_shared (b : Nat) (s : State) (f) :
+    (∃ tid oids, (txnCommit b s f).2 = .committed tid oids) ∨
+    shared (txnCommit b s f).1 = shared s := by
+  unfold txnCommit
+  simp only
+  split
+  · right; simp; rfl
+  · rcases commitJoined_shared b { s with fail := f, nstores := 0, sps := [] } with h | h
+    · left; exact h
+    · right; simp only [afterCompletion_shared]; exact h
+
+/-- **No step other than a successful commit (of this or of the other connection) changes what other
+    connections can read.** -/
+theorem step_shared (b : Nat) (s : State) (op : Op) :
+    (∃ tid oids, (step b s op).2 = .committed tid oids) ∨ (∃ tid, (step b s op).2 = .extOk tid) ∨
+    shared (step b s op).1 = shared s := by
+  cases op with
+  | read i =>
+    right; right
+    simp only [step]
+    split
+    · rename_i h; have := access_shared s i; rw [h] at this; exact this
+    · rename_i h; have := access_shared s i; rw [h] at this; exact this
+  | modify i v => right; right; exact mutate_shared _ _ _
+  | link i j => right; right; exact mutate_shared _ _ _
+  | unlink i j => right; right; exact mutate_shared _ _ _
+  | add i => right; right; exact opAdd_shared _ _
+  | commit f =>
+    rcases txnCommit_shared b s f with h | h
+    · left; exact h
+    · right; right; exact h
+  | abort => right; right; exact txnAbort_shared s
+  | savepoint => right; right; exact txnSavepoint_shared b s
+  | rollback n => right; right; exact txnRollback_shared s n
+  | close => right; right; exact opClose_shared s
+  | open_ => right; right; exact opOpen_shared s
+  | ext i v =>
+    simp only [step, opExt]
+    repeat' split
+    · right; right; rfl
+    · right; right; rfl
+    · right; left; exact ⟨_, rfl⟩
+  | peek i => right; right; rfl
 
 end Proofs.Conn
